@@ -96,6 +96,11 @@ func (g *GenCfg) genVD(t *rapid.T, depth int) *VD {
 		return &VD{K: "barr", N: rapid.Uint64Range(0, 999).Draw(t, "bn"), L: rapid.IntRange(0, 24).Draw(t, "bl")}
 	case "arr", "map", "cmap":
 		l := rapid.IntRange(0, g.MaxElems).Draw(t, "cl")
+		if k == "cmap" && rapid.IntRange(0, 7).Draw(t, "manyfields") == 0 {
+			// composites with many fields (tiny values): their shared digest / key lists cross the 23-, 255-byte
+			// and 8- / 24- / 32-entry boundaries of the CBOR heads that describe them
+			l = rapid.SampledFrom([]int{8, 9, 23, 24, 25, 31, 32, 33, 40}).Draw(t, "fields")
+		}
 		var e *VD
 		if l > 0 {
 			e = g.genVD(t, depth+1)
@@ -218,6 +223,7 @@ func genDigSpec(t *rapid.T) *DigSpec {
 	alphas := []uint64{1, 2, 3, 5, 0, 50, 1000}
 	for i := 0; i < d.Levels; i++ {
 		d.Alpha[i] = rapid.SampledFrom(alphas).Draw(t, "alpha")
+		d.Top[i] = rapid.IntRange(0, 3).Draw(t, "top") == 0
 	}
 	return d
 }
